@@ -306,6 +306,7 @@ def task(spec):
         if st4 == "ok" and res4["exc"] is None:
             summ["faults"]["peer_subset"] = summ["faults"].get("peer_subset", 0) + 1
             viols += check_records(op4, res4, policy, summ, "subset")
+    viols += check_get_subblocks(AJ.items_to_text(block), flags, policy, summ)
     if not summ["samples"]:
         summ["samples"].append({"block": AJ.items_to_text(block), "flags": flags, "spec_keys": keys})
     # de-duplicate by class
@@ -319,7 +320,30 @@ def task(spec):
     return summ
 
 
+def check_get_subblocks(text, flags, policy, summ):
+    """ir_block.get_subblocks (the other entry point that reports sub-blocks) must report what evm2rbr_compiler reports."""
+    from gsim.core import pipe, procs
+    st, recs = procs.run_sut(pipe.run_specs, {"argv": flags, "blocks": [text], "get_subblocks": True}, cpu_s=120)
+    if st != "ok" or not recs or "subs" not in recs[0]:
+        return []
+    rec = recs[0]
+    summ["evals"] += 1
+    rp = {"kind": "get_subblocks", "block": text, "flags": flags, "policy": policy}
+    if "get_subblocks_exc" in rec:
+        return [{"class": ["get_subblocks", "raises", policy], "detail": "get_subblocks raised %s | block %s | flags %s" % (
+            rec["get_subblocks_exc"], text, " ".join(flags)), "replay": rp}]
+    if rec.get("get_subblocks") != rec["subs"]:
+        return [{"class": ["get_subblocks", "differs", policy], "detail": "get_subblocks reports %d sub-blocks %s, evm2rbr_compiler %d %s | block %s | flags %s" % (
+            len(rec.get("get_subblocks") or []), [len(x) for x in rec.get("get_subblocks") or []], len(rec["subs"]), [len(x) for x in rec["subs"]],
+            text, " ".join(flags)), "replay": rp}]
+    return []
+
+
 def replay(rp):
+    if rp.get("kind") == "get_subblocks":
+        summ = {"evals": 0}
+        v = check_get_subblocks(rp["block"], rp["flags"], rp["policy"], summ)
+        return v[0] if v else None
     op = rp["op"]
     st, res = C.run_child(op)
     if st != "ok" or res["exc"] is not None:
